@@ -36,3 +36,5 @@ PROPERTY DF_Persist
 PROPERTY DF_InplaceEqualsCopy
 PROPERTY DF_InplaceReturnsSelf
 PROPERTY DF_AffineExact
+PROPERTY DF_Integrate
+PROPERTY DF_SetSub
